@@ -153,11 +153,80 @@ static std::string handle(const std::string& cmd, const std::string& args) {
       }
     return "ok";
   }
+  if (cmd == "ccd" || cmd == "o_shorten") {
+    // residue names (hex, "-" = empty) of one chain. ccd: model correspondence of shorten_ccd_codes / restore_full_ccd_codes
+    // (Pdb/CcdAlias.v). o_shorten: the names come back through a PDB file and through an mmCIF file of the shortened structure.
+    Structure st;
+    st.models.emplace_back(1);
+    st.models[0].chains.emplace_back("A");
+    st.cell.set(30, 40, 50, 90, 90, 90);
+    st.spacegroup_hm = "P 1";
+    std::vector<std::string> names;
+    int num = 0;
+    for (const std::string& h : w) {
+      Residue r;
+      r.name = h == "-" ? std::string() : hex_decode(h);
+      names.push_back(r.name);
+      r.seqid.num = ++num;
+      r.het_flag = 'H';
+      Atom a;
+      a.name = "C1"; a.element = Element("C"); a.pos = Position(num, 1, 2); a.occ = 1; a.b_iso = 10; a.serial = num;
+      r.atoms.push_back(a);
+      st.models[0].chains[0].residues.push_back(r);
+    }
+    auto enc = [](const std::string& x) { return x.empty() ? std::string("-") : hex_encode(x); };
+    auto names_of = [&](const Structure& x) {
+      std::string o;
+      if (!x.models.empty())
+        for (const Chain& ch : x.models[0].chains)
+          for (const Residue& r : ch.residues) o += (o.empty() ? "" : " ") + enc(r.name);
+      return o;
+    };
+    std::string orig = names_of(st);
+    shorten_ccd_codes(st);
+    if (cmd == "ccd") {
+      std::string out;
+      for (const auto& p : st.shortened_ccd_codes) out += (out.empty() ? "" : " ") + enc(p.first) + ">" + enc(p.second);
+      out += " | " + names_of(st);
+      restore_full_ccd_codes(st);
+      out += " | " + names_of(st);
+      return out;
+    }
+    for (const Residue& r : st.models[0].chains[0].residues)
+      if (r.name.size() > 3) return "a name is still longer than 3 characters after shorten_ccd_codes: " + r.name;
+    for (size_t i = 0; i < st.shortened_ccd_codes.size(); ++i)
+      for (size_t j = 0; j < i; ++j)
+        if (st.shortened_ccd_codes[i].second == st.shortened_ccd_codes[j].second)
+          return "two long names share the alias " + st.shortened_ccd_codes[i].second;
+    setup_entities(st);
+    std::string pdb = make_pdb_string(st, PdbWriteOptions());
+    Structure a = read_pdb_from_memory(pdb.data(), pdb.size(), "gen", PdbReadOptions());
+    if (names_of(a) != orig) return "names after the PDB file: " + names_of(a) + " expected " + orig + " pdb=" + hex_encode(pdb);
+    Structure b = from_cif_text(doc_text(make_mmcif_document(st, MmcifOutputGroups(true))));
+    if (names_of(b) != orig) return "names after the mmCIF file of the shortened structure: " + names_of(b) + " expected " + orig;
+    restore_full_ccd_codes(st);
+    if (names_of(st) != orig) return "names after restore_full_ccd_codes: " + names_of(st) + " expected " + orig;
+    return "ok";
+  }
   if (cmd == "o_cif") {        // seed nmodels nchains nres groupmask flags: structure -> mmCIF -> structure -> mmCIF
     uint64_t seed = (uint64_t)to_ll(w.at(0));
     unsigned flags = (unsigned)to_ll(w.at(5));
     MmcifOutputGroups groups = groups_from_mask((unsigned long long)to_ll(w.at(4)));
     Structure st = gen_for_cif(seed, gen_opt(w, flags));
+    {
+      // optional per-atom attributes of mmCIF (not in PDB files): calc_flag and the TLS group id, each on its own,
+      // both together, or neither; drawn from a second generator so that the structure itself does not change
+      ps::Rng r2(seed ^ 0x5bd1e995u);
+      bool cf = r2.chance(45), tls = r2.chance(45);
+      for (Model& m : st.models)
+        for (Chain& ch : m.chains)
+          for (Residue& res : ch.residues)
+            for (Atom& a : res.atoms) {
+              if (cf && r2.chance(70))
+                a.calc_flag = r2.pick(std::vector<CalcFlag>{CalcFlag::Determined, CalcFlag::Calculated, CalcFlag::Dummy});
+              if (tls && r2.chance(80)) a.tls_group_id = (short) r2.range(0, 5);
+            }
+    }
     // a switched-off category cannot carry its data: remove from the input what only that category holds
     if (!groups.entity_poly_seq || !groups.entity_poly || !groups.entity)
       for (Entity& e : st.entities) { e.full_sequence.clear(); e.reflects_microhetero = false; e.dbrefs.clear(); }
